@@ -645,9 +645,9 @@ def _restore_pairing(fi, subs, adds):
         return False, "restore does not follow the loop that decrements", adds[0]
     r_idx = min(restore_idx)
     restore_loop = body[r_idx]
-    if not isinstance(restore_loop, ast.For) or not isinstance(restore_loop.iter, ast.Name):
+    log = _log_name(restore_loop.iter) if isinstance(restore_loop, ast.For) else None
+    if log is None:
         return False, "restore is not an unconditional loop over the modification log", restore_loop
-    log = restore_loop.iter.id
     # no exit between the first decrement and the end of the restore loop
     for st in body[first_dec:r_idx + 1]:
         for sub in ast.walk(st):
@@ -661,10 +661,15 @@ def _restore_pairing(fi, subs, adds):
         logged = False
         idx_names = sorted({x.id for x in ast.walk(d.target) if isinstance(x, ast.Name)} - {"self"})
         for s in blk[:pos]:
-            if isinstance(s, ast.Expr) and isinstance(s.value, ast.Call) and isinstance(s.value.func, ast.Attribute) \
-                    and s.value.func.attr == "append" and isinstance(s.value.func.value, ast.Name) \
-                    and s.value.func.value.id == log:
-                got = sorted({x.id for x in ast.walk(s.value) if isinstance(x, ast.Name)} - {log})
+            # `log.append((a, b))`, `log.add((a, b))`, or a tally `log[(a, b)] += 1`
+            is_call = isinstance(s, ast.Expr) and isinstance(s.value, ast.Call) and isinstance(s.value.func, ast.Attribute) \
+                and s.value.func.attr in ("append", "add") and isinstance(s.value.func.value, ast.Name) \
+                and s.value.func.value.id == log
+            is_tally = isinstance(s, (ast.AugAssign, ast.Assign)) and isinstance(
+                s.target if isinstance(s, ast.AugAssign) else s.targets[0], ast.Subscript) and ast.unparse(
+                (s.target if isinstance(s, ast.AugAssign) else s.targets[0]).value) == log
+            if is_call or is_tally:
+                got = sorted({x.id for x in ast.walk(s) if isinstance(x, ast.Name)} - {log})
                 if got == idx_names:
                     logged = True
         if not logged:
@@ -674,6 +679,19 @@ def _restore_pairing(fi, subs, adds):
     if not any(_shape(a.target) == tgt_sub for a in adds):
         return False, "restore increments a different location than the decrement", adds[0]
     return True, "", None
+
+
+def _log_name(it):
+    """the log a restore loop runs over: `log`, `log.items()`, `log.keys()`, `log.elements()`, `sorted(log)`, `list(log)`"""
+    if isinstance(it, ast.Name):
+        return it.id
+    if isinstance(it, ast.Call) and isinstance(it.func, ast.Attribute) and it.func.attr in ("items", "keys", "elements") and \
+            isinstance(it.func.value, ast.Name) and not it.args:
+        return it.func.value.id
+    if isinstance(it, ast.Call) and isinstance(it.func, ast.Name) and it.func.id in ("sorted", "list", "set", "reversed", "tuple") \
+            and len(it.args) == 1:
+        return _log_name(it.args[0])
+    return None
 
 
 def _shape(node):
